@@ -187,7 +187,7 @@ def sx(e):
 def ddecl(e):
     """names an expression may declare directly in the frame it runs in (Coq: ddecl)"""
     k = e[0]
-    if k in ("int", "neg", "str", "null", "var", "und", "while", "for", "lam"):
+    if k in ("int", "neg", "str", "null", "var", "und", "while", "for", "lam", "import"):
         return set()
     if k == "seq" or k == "list":
         return set().union(*[ddecl(x) for x in e[1]]) if e[1] else set()
@@ -197,7 +197,7 @@ def ddecl(e):
         return ddecl(e[2])
     if k == "if":
         return ddecl(e[1]) | ddecl(e[2]) | ddecl(e[3])
-    if k in ("switch", "throw", "import"):
+    if k in ("switch", "throw"):
         return ddecl(e[1])
     if k == "try":
         return ddecl(e[1])
